@@ -2,7 +2,7 @@
 //@ props C05 C01 C04
 //@ kind P
 //@ def quick NMAX=8
-//@ def thorough NMAX=40
+//@ def thorough NMAX=16
 //@ enforce XML88591Transcoder_transcodeFrom
 //@ entry h_latin1_from
 //@ note P: iterations unbounded through the loop contract; buffer LENGTHS are bounded by -DNMAX (srcCount, maxChars <= NMAX) because cbmc needs finite objects
